@@ -181,8 +181,8 @@ def main():
         run.run_shards("rv.props.c03", timeout=3400)
         return run.finish(require=("values_encoded", "values_decoded", "annex_f_vectors_checked"))
     rng = run.rng("c03")
-    per_pattern = 12 if thorough else 3
-    floor = 600 if thorough else 120
+    per_pattern = 100 if thorough else 3
+    floor = 6000 if thorough else 120
     idx = 0
     pdus = S.registered_pdus()
     pdu_classes = {k for _, _, k in pdus}
